@@ -9,6 +9,7 @@ import (
 	"sort"
 	"sync"
 	"time"
+	"unsafe"
 )
 
 type (
@@ -41,10 +42,12 @@ var (
 )
 
 var clock struct {
-	mu     sync.Mutex
-	now    time.Time
-	timers map[*Timer]bool
-	seq    int
+	mu       sync.Mutex
+	now      time.Time
+	start    time.Time
+	wallStep Duration
+	timers   map[*Timer]bool
+	seq      int
 }
 
 func init() { Reset(time.Date(2024, 1, 2, 3, 4, 5, 0, time.UTC)) }
@@ -63,11 +66,57 @@ type Timer struct {
 func Reset(start time.Time) {
 	clock.mu.Lock()
 	clock.now = start
+	clock.start = start
+	clock.wallStep = 0
 	clock.timers = map[*Timer]bool{}
 	clock.mu.Unlock()
 }
 
-func Now() Time             { clock.mu.Lock(); defer clock.mu.Unlock(); return clock.now }
+// Now returns the virtual time as the real clock would: a wall-clock reading
+// (which StepWall can make jump) together with a monotonic reading (which
+// nothing but Advance moves).  Times that have been through Round, Truncate,
+// a format/parse round trip or AddDate lose the monotonic reading, as they do
+// with package time, and are then compared by their wall-clock readings.
+func Now() Time {
+	clock.mu.Lock()
+	defer clock.mu.Unlock()
+	return dress(clock.now)
+}
+
+// timeRepr is the layout of a time.Time (unchanged since Go 1.9).
+type timeRepr struct {
+	wall uint64
+	ext  int64
+	loc  *time.Location
+}
+
+var (
+	monoBase    = time.Now() /* Carries a monotonic reading. */
+	monoBaseExt = (*timeRepr)(unsafe.Pointer(&monoBase)).ext
+	monoOK      = 0 != (*timeRepr)(unsafe.Pointer(&monoBase)).wall>>63
+)
+
+// dress gives the internal virtual time t a monotonic reading (elapsed
+// virtual time) and the stepped wall clock.  Called with clock.mu held.
+func dress(t time.Time) Time {
+	if !monoOK {
+		return t.Add(clock.wallStep)
+	}
+	/* Wall = t + step, by moving the real base there ... */
+	d := monoBase.Add(t.Add(clock.wallStep).Sub(monoBase.Round(0)))
+	/* ... and the monotonic reading = elapsed virtual time. */
+	(*timeRepr)(unsafe.Pointer(&d)).ext = monoBaseExt + int64(t.Sub(clock.start))
+	(*timeRepr)(unsafe.Pointer(&d)).loc = nil /* UTC (Time.UTC would strip the monotonic reading). */
+	return d
+}
+
+// StepWall makes the wall clock jump by d (NTP step, resume from suspend,
+// date -s); the monotonic clock and with it every timer is unaffected.
+func StepWall(d Duration) {
+	clock.mu.Lock()
+	clock.wallStep += d
+	clock.mu.Unlock()
+}
 func Since(t Time) Duration { return Now().Sub(t) }
 func Until(t Time) Duration { return t.Sub(Now()) }
 func Unix(s, ns int64) Time { return time.Unix(s, ns) }
@@ -179,7 +228,7 @@ func AdvanceN(d Duration, settle func(), max int) (fired int) {
 		next.active = false
 		delete(clock.timers, next)
 		fired++
-		f, c, now := next.f, next.c, clock.now
+		f, c, now := next.f, next.c, dress(clock.now)
 		clock.mu.Unlock()
 		if nil != f {
 			go f()
